@@ -6,6 +6,7 @@ import (
 	"fmt"
 	"math/rand"
 	"servitor/ansi"
+	"strings"
 )
 
 func init() {
@@ -54,6 +55,10 @@ func genC13(r *rand.Rand, n int, emit func(Op)) {
 			emit(Op{"op": op, "s": fmt.Sprint(x) + plain, "w": d, "canon": true})
 			continue
 		}
+		if r.Intn(6) == 0 {
+			genC13Edges(r, emit)
+			continue
+		}
 		switch weighted(r, 2, 8, 3, 3, 2, 4, 2, 1) {
 		case 0:
 			emit(Op{"op": "expand", "s": s})
@@ -77,6 +82,139 @@ func genC13(r *rand.Rand, n int, emit func(Op)) {
 		case 7:
 			emit(Op{"op": "apply", "s": s, "style": pick(r, sgrPool)})
 		}
+	}
+}
+
+/* a styled ellipsis whose colour is not the default one, an ellipsis of two cells, none */
+var ellipsisPool = []string{ellipsisStyled, "…", "", "...", "\x1b[38;2;1;2;3m…\x1b[0m"}
+
+/*
+The input classes the random text above hardly ever reaches:
+the same text at a whole range of widths, paragraphs at the widths terminals have, the
+interesting character exactly at the margin, and the size arguments at their edges
+(0, 1, negative, the exact length, one off, far larger than the text).
+*/
+func genC13Edges(r *rand.Rand, emit func(Op)) {
+	switch weighted(r, 3, 3, 3, 3, 2, 2, 2, 1) {
+	case 0:
+		/* one text, many widths: every width from 1 past its longest line (short texts), or the
+		   widths around its line and word lengths */
+		s := genCanon(r, 3+r.Intn(25))
+		ls := lineLengths(s)
+		longest := 0
+		for _, n := range ls {
+			if n > longest {
+				longest = n
+			}
+		}
+		widths := []int{}
+		if longest <= 24 {
+			for w := 0; w <= longest+2; w++ {
+				widths = append(widths, w)
+			}
+		} else {
+			for _, n := range ls {
+				widths = append(widths, n-1, n, n+1)
+			}
+			widths = append(widths, 1, 2, longest/2, longest/2+1, longest/3, 80, 120, 200)
+			if len(widths) > 24 {
+				r.Shuffle(len(widths), func(i, j int) { widths[i], widths[j] = widths[j], widths[i] })
+				widths = widths[:24]
+			}
+		}
+		ops := []string{"wrap"}
+		if r.Intn(3) == 0 {
+			ops = append(ops, pick(r, []string{"dumbwrap", "pad"}))
+		}
+		for _, w := range widths {
+			for _, op := range ops {
+				emit(Op{"op": op, "s": s, "w": w, "canon": true})
+			}
+		}
+	case 1:
+		/* paragraphs at the widths terminals have */
+		s := genParagraph(r, 20+r.Intn(180))
+		for k := 1 + r.Intn(3); k > 0; k-- {
+			w := pick(r, []int{40, 60, 72, 76, 78, 79, 80, 81, 100, 120, 132, 200, 200, 250, 500})
+			emit(Op{"op": pick(r, []string{"wrap", "wrap", "wrap", "dumbwrap", "pad"}), "s": s, "w": w, "canon": true})
+		}
+		if r.Intn(3) == 0 {
+			/* the preview pipeline on it: wrapped, then cut to a few lines */
+			w := pick(r, []int{40, 76, 80, 120})
+			emit(Op{"op": "snip", "s": ansi.Wrap(s, w), "w": w, "h": pick(r, []int{1, 2, 4, 4, 10}), "ellipsis": ellipsisStyled, "canon": true})
+		}
+	case 2:
+		/* wide, combining, invisible and blank-looking characters exactly at the margin */
+		w := 1 + r.Intn(30)
+		s := genAtBreak(r, w)
+		emit(Op{"op": "wrap", "s": s, "w": w, "canon": true})
+		if r.Intn(2) == 0 {
+			emit(Op{"op": pick(r, []string{"dumbwrap", "pad", "wrap"}), "s": s, "w": w + r.Intn(3) - 1, "canon": true})
+		}
+		if r.Intn(3) == 0 {
+			emit(Op{"op": "snip", "s": ansi.Wrap(s, w), "w": w, "h": 1 + r.Intn(3), "ellipsis": pick(r, ellipsisPool), "canon": true})
+		}
+	case 3:
+		/* snip: heights and widths relative to the text, blank lines at the end and everywhere */
+		n := 1 + r.Intn(7)
+		lines := []string{}
+		for i := 0; i < n; i++ {
+			switch weighted(r, 5, 2, 1) {
+			case 0:
+				lines = append(lines, genCanonLine(r))
+			case 1:
+				lines = append(lines, "")
+			case 2:
+				lines = append(lines, pick(r, []string{" ", "   ", "\t", "\u3000 ", "\x1b[1m \x1b[0m", "\u200b"}))
+			}
+		}
+		if r.Intn(3) == 0 {
+			/* trailing blank lines: they are dropped and an ellipsis takes their place */
+			for k := 1 + r.Intn(3); k > 0; k-- {
+				lines = append(lines, pick(r, []string{"", " ", "\x1b[4m \x1b[0m\x1b[4m \x1b[0m"}))
+			}
+		}
+		s := strings.Join(lines, "\n")
+		ls := lineLengths(s)
+		h := pick(r, []int{len(lines) - 1, len(lines), len(lines) + 1, len(lines) - 2, 0, 1, 2, 1000, 65536, -1})
+		/* the width equal to the length of a line is what makes room for the ellipsis */
+		w := pick(r, []int{pick(r, ls), pick(r, ls), pick(r, ls) + 1, pick(r, ls) - 1, 0, 1, -1, 80, 65535, 1 << 31})
+		emit(Op{"op": "snip", "s": s, "w": w, "h": h, "ellipsis": pick(r, ellipsisPool), "canon": true})
+	case 4:
+		/* pad: the exact line lengths, one off, nothing, negative, far wider than the text */
+		s := pick(r, []string{"", "\n", "\n\n", "a", "a\n", "\na", genCanon(r, 12), genCanon(r, 12), genLines(r, 5)})
+		ls := lineLengths(s)
+		w := pick(r, []int{pick(r, ls), pick(r, ls) + 1, pick(r, ls) - 1, 0, 1, -1, -1 << 31, -1<<63 + 4096, 300, 1000, 2000})
+		if genReportedDefects && r.Intn(4) == 0 {
+			/* length - lineLength wraps around for lengths within a line's length of the smallest
+			   int: Pad then asks strings.Repeat for about 2^63 blanks and panics (reported, not
+			   repaired; no terminal produces such a width) */
+			w = -1 << 63
+		}
+		emit(Op{"op": "pad", "s": s, "w": w, "canon": true})
+	case 5:
+		/* indent: empty and newline-only texts, texts that end in a newline, prefixes that are
+		   styled, long, blank, or contain the characters the scanner looks for */
+		s := pick(r, []string{"", "\n", "\n\n\n", "a", "a\n", "\na", "a\n\nb", genCanon(r, 14), genCanon(r, 14), genLines(r, 6)})
+		prefix := pick(r, []string{"", " ", "  ", "▌", "\x1b[38;2;164;245;155m▌\x1b[0m", "        ", "‣ ", "m", "[", "\u3000", "→ ", "> > > "})
+		emit(Op{"op": "indent", "s": s, "prefix": prefix, "first": r.Intn(2) == 0})
+	case 6:
+		/* setlength: the exact length, one off, nothing, negative, a whole wide status line */
+		raw := genRawText(r, 40)
+		n := len([]rune(ansi.Squash(ansi.Scrub(raw))))
+		w := pick(r, []int{n, n, n - 1, n + 1, n + 2, 0, 1, -1, 200, 1000, 65535})
+		emit(Op{"op": "setlength", "s": raw, "w": w, "ellipsis": pick(r, []string{"…", "…", "", "...", ellipsisStyled})})
+	case 7:
+		/* apply: odd style strings, and text that is already styled many levels deep */
+		cells := genCells(r, 10)
+		for i := range cells {
+			if cells[i].ch != '\n' {
+				for k := r.Intn(6); k > 0; k-- {
+					cells[i].attrs = append(append([]string{}, cells[i].attrs...), pick(r, sgrPool))
+				}
+			}
+		}
+		emit(Op{"op": "apply", "s": renderCells(cells), "style": pick(r, []string{"", "0", "1;4", "38;5;196", "7", "22", "38;2;0;0;0"})})
 	}
 }
 
